@@ -31,6 +31,8 @@ type channel struct {
 	startTime             int64
 	startNr               int
 	masterTrName          string
+	startedByTrName       string // The master track when the channel was started
+	nrRestarts            uint32 // Number of times that a new master track has made the channel start again
 	masterTimescale       uint32
 	masterSegDuration     uint32
 	masterSeqNrShift      int64 // Segment number != (time + masterTimeShift)/ duration
@@ -68,8 +70,9 @@ type recSegData struct {
 	isLmsg          bool
 	isSlate         bool
 	isComplete      bool
-	shouldBeShifted bool // Set by receiver
-	isShifted       bool // Is modified by the receiver
+	nrRestarts      uint32 // Value for the channel when the segment was received
+	shouldBeShifted bool   // Set by receiver
+	isShifted       bool   // Is modified by the receiver
 }
 
 func newChannel(ctx context.Context, chCfg ChannelConfig, chDir string) *channel {
@@ -297,6 +300,11 @@ func (ch *channel) receivedSegData(rsd recSegData) {
 		log.Error("received segData for unknown track")
 		return
 	}
+	ch.restartIfNewMaster(log)
+	if rsd.nrRestarts != ch.nrRestarts {
+		log.Info("Dropping data of segment received before the channel was restarted")
+		return
+	}
 	name := rsd.name
 	switch {
 	case rsd.chunkNr == 0:
@@ -362,6 +370,7 @@ func (ch *channel) receivedSegData(rsd recSegData) {
 					dur := sdb.items[1].dur
 					ch.mu.Lock()
 					ch.masterSegDuration = dur
+					ch.startedByTrName = name
 					rd := ch.trDatas[name]
 					ch.masterTimescale = rd.timeScaleOut
 					segTime0 := int64(sdb.items[0].dts)
@@ -400,6 +409,36 @@ func (ch *channel) receivedSegData(rsd recSegData) {
 	if ch.masterTimescale == 0 {
 		return // not ready yet
 	}
+}
+
+// restartIfNewMaster makes a started channel start again, if the first video track has arrived and become
+// master track after another track has started the channel. The segment duration, and the shift of
+// sequence numbers and times that the tracks have been using since then, need not be right for the
+// video track and are derived from it instead. Segments received before that do not count any more.
+func (ch *channel) restartIfNewMaster(log *slog.Logger) {
+	ch.mu.Lock()
+	defer ch.mu.Unlock()
+	if !ch.hasNewMaster() {
+		return
+	}
+	log.Info("New master track. Restarting channel", "masterTrName", ch.masterTrName, "previous", ch.startedByTrName)
+	ch.masterSegDuration = 0
+	ch.masterTimescale = 0
+	ch.masterSeqNrShift = 0
+	ch.masterTimeShift = 0
+	ch.maxNrBufSegs = 0
+	ch.nrRestarts++
+	ch.segTimesGen.stop()
+}
+
+// hasNewMaster tells if the first video track has become master track of a channel started by another track.
+// The channel mutex must be held by the caller.
+func (ch *channel) hasNewMaster() bool {
+	if ch.masterSegDuration == 0 || ch.startedByTrName == ch.masterTrName {
+		return false
+	}
+	master, ok := ch.trDatas[ch.masterTrName]
+	return ok && master.contentType == "video"
 }
 
 // addTrData adds track data and a segment.
